@@ -11,23 +11,34 @@ _RULE = ("Theorems (Coq, no axioms) over a byte-level model of bucketteer's writ
          "C05_seal_succeeds, C05_fuel_never_decides (no answer of the model on any byte file is an out-of-fuel artefact); version numbers, "
          "magic and metadata limits are regenerated from the source on every check (Generated/ConstsC05.v).")
 
+# c05_robust_test.go, check `eof-with-full-read-not-served`: the pinned tree (c6260df) does NOT serve a ReaderAt that returns
+# (len(p), io.EOF) for a read ending exactly at the end of the file (Reader.Has -> readUint64Le returns the EOF although all
+# 8 bytes were delivered; both formats). Until that is repaired in /repo or listed in known-findings.txt the check runs in
+# "observe" mode (recorded in the evidence as a note + count, not a failure). Set to "enforce" afterwards.
+_ROBUST_ENV = {"VERIF_C05_EOF_FULL_READ": "enforce"}
+
 PROP = dict(
     title="Signature-existence index has no false negatives",
     coq_target="Properties/C05.vo",
     harness=[
-        dict(name="current", pkg="./bucketteer", run="^TestVerif_C05$",
+        dict(name="current", pkg="./bucketteer", run="^TestVerif_C05(_Robust)?$",
              files={"bucketteer/zz_verif_c05_test.go": "harness/bucketteer/c05_test.go",
-                    "bucketteer/zz_verif_c05c_test.go": "harness/bucketteer/c05_common_test.go"},
-             timeout=900, timeout_thorough=1500),
-        dict(name="legacy", pkg="./deprecated/bucketteer", run="^TestVerif_C05$",
+                    "bucketteer/zz_verif_c05c_test.go": "harness/bucketteer/c05_common_test.go",
+                    "bucketteer/zz_verif_c05r_test.go": "harness/bucketteer/c05_robust_test.go"},
+             env=_ROBUST_ENV, timeout=900, timeout_thorough=1500),
+        dict(name="legacy", pkg="./deprecated/bucketteer", run="^TestVerif_C05(_Robust)?$",
              files={"deprecated/bucketteer/zz_verif_c05_test.go": "harness/deprecated/bucketteer/c05dep_test.go",
-                    "deprecated/bucketteer/zz_verif_c05c_test.go": "harness/bucketteer/c05_common_test.go"},
-             timeout=900, timeout_thorough=1500),
+                    "deprecated/bucketteer/zz_verif_c05c_test.go": "harness/bucketteer/c05_common_test.go",
+                    "deprecated/bucketteer/zz_verif_c05r_test.go": "harness/bucketteer/c05_robust_test.go"},
+             env=_ROBUST_ENV, timeout=900, timeout_thorough=1500),
     ],
-    technique="Coq proof over a byte-level executable model of both bucketteer formats (reusing the proved eytzinger layout/search) + differential execution: the real Writer/Reader (mmap and plain ReaderAt) on generated multisets, property oracle on every answer, and the Coq model re-evaluated on the Go-written file bytes",
+    technique="Coq proof over a byte-level executable model of both bucketteer formats (reusing the proved eytzinger layout/search) + differential execution: the real Writer/Reader (mmap and plain ReaderAt) on generated multisets, property oracle on every answer, and the Coq model re-evaluated on the Go-written file bytes; GOMAXPROCS sweep of the writer process and fault-injecting ReaderAt wrappers (transient read errors, end of file reported with the last bytes)",
     level_text=_RULE + " Tie: on every run the real Go writer and readers (mmap, *os.File, bytes.Reader) are exercised on multisets with duplicates, "
                "bucket populations 0,1,2,3,2^k-1,2^k,2^k+1, empty and edge prefixes and up to ~20 000 (quick) / ~200 000 (thorough) signatures, "
-               "with the property evaluated on every answer; small runs are handed to coqc, which checks the model writer's Has, the MODEL reader on the "
+               "with the property evaluated on every answer; the same oracle on multisets over the first, last (ffff, feff, ...), byte-swapped and n-way-seam prefixes "
+               "(2..9 signatures each plus duplicates, per-bucket put order never an eytzinger layout) sealed in child processes under GOMAXPROCS = default, 1, 2, 3, 5, 6, 7, 12, 16 "
+               "(thorough: 19 values up to 96); readers over fault-injecting io.ReaderAt wrappers (every ReadAt of the trace of NewReader + lookups fails once: the failed call may err "
+               "but never answers (false, nil) for an added signature, and after a retry every added signature is present on the same Reader); small runs are handed to coqc, which checks the model writer's Has, the MODEL reader on the "
                "GO-written bytes (cross-read) and the model reader on the model-written file against the Go answers; cespare/xxhash is checked against XXH.xxh64.",
     level_note="Forced hypotheses, stated in the theorems: fewer than 2^29 distinct hashes per prefix (the reader computes the bucket length as uint32(numHashes*8)); "
                "legacy format only: serialized metadata shorter than 2^31 bytes (borsh string lengths / uint32 header size). Trusted: Coq kernel; the hand-written model "
